@@ -19,7 +19,9 @@ PRE_C = '''
 ''' % (QR_ANY, MM_ANY)
 
 BLOCK_SIZES = ' && '.join('{b}%s.n < (1UL << 56)' % t for t in TABLES + ['m_query_responses', 'm_address_event_counts', 'm_malformed_messages'])
-SCRATCH = ''.join('__CPROVER_assigns($this->%s.cur)\n' % t for t in TABLES + ['m_query_responses', 'm_address_event_counts', 'm_malformed_messages'])
+CURS = ['bt_StringItem__cur', 'bt_ClassType__cur', 'bt_QueryResponseSignature__cur', 'bt_IndexListItem__cur', 'bt_Question__cur', 'bt_RR__cur',
+        'bt_MalformedMessageData__cur', 'seq_QueryResponse__cur', 'umap_AddressEventCount_u64__cur', 'seq_MalformedMessage__cur']
+SCRATCH = '__CPROVER_assigns(%s)\n' % ', '.join(CURS)
 
 
 def loops_for(keyof):
@@ -31,13 +33,13 @@ def loops_for(keyof):
             key = keyof[member]
             i = info['counter']
             out[k] = '''
-  __CPROVER_assigns(%(i)s, written, g_bytes, kt_left, kt_depth, kt_isval, g_ekind, g_eval, g_eseen, g_exc, %(seq)s.cur)
+  __CPROVER_assigns(%(i)s, written, g_bytes, kt_left, kt_depth, kt_isval, g_ekind, g_eval, g_eseen, g_exc, %(cur)s)
   __CPROVER_loop_invariant(%(i)s <= %(seq)s.n && g_exc == 0 && written == g_bytes)
   __CPROVER_loop_invariant(%(i)s < %(seq)s.n ? (kt_depth == 2 && kt_left == %(seq)s.n - %(i)s) : (kt_depth == 1 && !kt_isval))
   __CPROVER_loop_invariant((g_K == %(key)d && g_Ei < %(i)s) ==> (g_eseen && g_ekind == K_NESTED))
   __CPROVER_loop_invariant(g_K != %(key)d ==> (g_eseen == __CPROVER_loop_entry(g_eseen) && g_ekind == __CPROVER_loop_entry(g_ekind) && g_eval == __CPROVER_loop_entry(g_eval)))
   __CPROVER_decreases(%(seq)s.n - %(i)s)
-''' % {'i': i, 'seq': seq, 'key': key}
+''' % {'i': i, 'seq': seq, 'key': key, 'cur': info['m'] + '__cur'}
         return out
     return gen
 
